@@ -702,7 +702,7 @@ def evaluate_all(ctx, schemas, cases, refs):
 def run(ctx):
     rng = ctx.rng
     th = ctx.thorough
-    schemas = [msggen.matrix_schema()] + [msggen.random_schema(rng) for _ in range(5 if not th else 30)] + msggen.twin_schemas()
+    schemas = [msggen.matrix_schema()] + [msggen.random_schema(rng) for _ in range(5 if not th else 30)] + msggen.twin_schemas() + [msggen.mixed_schema()]
     prelude = "\n".join(f"Definition sc{i} : schema := {s.coq()}." for i, s in enumerate(schemas))
     budget = 120 if not th else 500
     n_msgs = (36, 9) if not th else (400, 60)
@@ -742,6 +742,26 @@ def run(ctx):
         for _ in range(80 if not th else 600):
             ci = rng.randrange(len(s.classes))
             cases.append((si, ci, "random-bytes", random_bytes(rng, s.classes[ci]), None))
+    # ---- a length-delimited payload larger than any read chunk (70 000 bytes), cut near its end, in its middle and right after its
+    #      length prefix: oracle only (BIG cases are kept out of the Coq case files); seeded change C17-6: a chunked reader that
+    #      checks only for an empty chunk accepts the shortened payload
+    big_cases = set()
+    try:
+        s0 = schemas[0]
+        cip = [c.name for c in s0.classes].index("KPlain")
+        fb = [f for f in s0.classes[cip].fields if f.elem.kind == "scalar" and f.elem.pt == "bytes"][0]
+        fs = [f for f in s0.classes[cip].fields if f.elem.kind == "scalar" and f.elem.pt == "string"][0]
+        for fld, val in ((fb, bytes(range(256)) * 274), (fs, "x" * 70000)):
+            whole = bytes(s0.classes[cip].py(**{fld.name: val, "p_int32_2": 7}))
+            for cut in (len(whole) - 1, len(whole) - 10, len(whole) - 4000, len(whole) - 65536, len(whole) // 2, 70, 8):
+                if 0 < cut < len(whole):
+                    big_cases.add(len(cases))
+                    cases.append((0, cip, "truncate-big", whole[:cut], "raise"))
+            big_cases.add(len(cases))
+            cases.append((0, cip, "valid-big", whole, None))
+    except Exception as e:  # noqa
+        ctx.notes.append(f"big-payload cases not built: {e!r}")
+    big_keys = {(cases[i][0], cases[i][1], cases[i][3]) for i in big_cases}
     # ---- dedup
     seen = set()
     uniq = []
@@ -793,7 +813,7 @@ def run(ctx):
     ctx.cov["reference_decoder_agreement"] = agreement
 
     # ---- correspondence: model vs implementation
-    idxs = [i for i, r in enumerate(results) if r is not None]
+    idxs = [i for i, r in enumerate(results) if r is not None and (cases[i][0], cases[i][1], cases[i][3]) not in big_keys]
     pri = [i for i in idxs if cases[i][2].startswith(("regress:", "corpus:"))]
     rest = [i for i in idxs if not cases[i][2].startswith(("regress:", "corpus:"))]
     if len(rest) > cap_corr:
